@@ -205,6 +205,7 @@ static void scenario_writer(void)
                 uint8_t *dst = (uint8_t *) vf_xmalloc(cap ? cap : 1);
                 memset(dst, 0xA5, cap ? cap : 1);
                 binson_writer w;
+                memset(&w, 0x77, sizeof w);      /* a writer object holding arbitrary (but fixed) bytes before init */
                 binson_writer_init(&w, cap ? dst : dst + 1, cap);
                 int seq[2] = { a, b };
                 for (int i = 0; i < 2; i++) {
@@ -296,6 +297,7 @@ static void one_value(int64_t iv, uint64_t dbits, bool isdbl)
 {
     uint8_t out[32];
     binson_writer w;
+    memset(&w, 0x77, sizeof w);      /* a writer object holding arbitrary (but fixed) bytes before init */
     binson_writer_init(&w, out, sizeof out);
     binson_write_array_begin(&w);
     double d;
@@ -384,6 +386,7 @@ static void scenario_large(void)
                 fold(" end leave=%d err=%d tostring=%d need=%zu", lv, (int) p->error_flags, ts, need);
                 /* the same value through the writer */
                 binson_writer w;
+                memset(&w, 0x77, sizeof w);      /* a writer object holding arbitrary (but fixed) bytes before init */
                 binson_writer_init(&w, out, sizeof out);
                 binson_write_object_begin(&w);
                 if (role == 2) { binson_write_name_with_len(&w, (const char *) pay, lens[li]); binson_write_integer(&w, 5); }
